@@ -10,6 +10,7 @@ import (
 	"sort"
 	"strings"
 	"sync"
+	"sync/atomic"
 	"testing"
 	"runtime"
 	"time"
@@ -512,6 +513,76 @@ func interleaved(r *report.Run, which int) error {
 	})
 }
 
+// burst: k bundles for an endpoint served by replying agents (ping) arrive back to back; every one must be handed
+// over and answered. (The reply path re-enters the agent manager while the next bundle is being handed over.)
+func burst(r *report.Run, k int, idx int) error {
+	return bubble.Run(nil, func(t *testing.T) {
+		w, err := newWorld(r)
+		if err != nil {
+			return
+		}
+		defer w.s.Close()
+		w.add("ping", "dtn://node/ping")
+		mk := w.add("mock", "dtn://node/a")
+		_ = mk
+		// transmitting a reply takes the node noticeably longer than accepting the next bundle (slow links)
+		slow := func(q *nodesim.Peer) {
+			q.Outcome = func(*bpv7.Bundle, *nodesim.SendRec) error {
+				x := uint64(1)
+				for i := 0; i < 30_000_000; i++ {
+					x = x*6364136223846793005 + 1442695040888963407
+				}
+				spinSink.Store(x)
+				return nil
+			}
+		}
+		slow(w.s.Peer("p"))
+		p := w.s.Peer("p")
+		w.s.Step("burst", fmt.Sprint(k))
+		for i := 0; i < k; i++ {
+			dest := "dtn://node/ping"
+			if i%5 == 4 {
+				dest = "dtn://node/a"
+			}
+			m := model.Bundle{Version: 7, CRC: 2, Dst: eidOf(dest), Src: model.Dtn("origin", "app"), Rpt: model.Dtn("pinger", fmt.Sprintf("x%d", i)),
+				Time: bubble.NowMs() - 100, Seq: uint64(5000 + i), Lifetime: 3_600_000,
+				Blocks: []model.Block{{Type: model.TPayload, Num: 1, Data: nodesim.Payload(fmt.Sprintf("B%d-%d", idx, i), 3)}}}
+			wire, _ := m.Encode(nil)
+			b, _ := bpv7.ParseBundle(bytes.NewReader(wire))
+			p.Inject(&b)
+		}
+		w.s.Tick(time.Second)
+		pongs := map[string]bool{}
+		for _, x := range w.s.Sends() {
+			if string(x.Bundle.Payload()) == "pong" {
+				pongs[x.Bundle.Dst.String()] = true
+			}
+		}
+		wantPongs, wantMock := 0, 0
+		for i := 0; i < k; i++ {
+			if i%5 == 4 {
+				wantMock++
+			} else {
+				wantPongs++
+			}
+		}
+		gotMock := 0
+		for _, d := range w.s.Deliveries() {
+			if strings.HasPrefix(d.PID, fmt.Sprintf("B%d-", idx)) {
+				gotMock++
+			}
+		}
+		r.Count("burst.bundles", k)
+		if len(pongs) != wantPongs || gotMock != wantMock {
+			w.violation("c07.burst-not-delivered", fmt.Sprintf("%d bundles arrived back to back: %d of %d were answered by the ping agent, %d of %d reached the mock agent", k, len(pongs), wantPongs, gotMock, wantMock))
+			return
+		}
+		r.Nontrivial("burst", k, idx)
+	})
+}
+
+var spinSink atomic.Uint64
+
 // stress: concurrent deliveries and fetches on few mailboxes; conservation at the end.
 func stress(r *report.Run, rng *report.Rand, nBundles int) error {
 	return bubble.Run(nil, func(t *testing.T) {
@@ -588,6 +659,7 @@ func TestCheck(t *testing.T) {
 	bubble.SetT(t)
 	r := report.Start(t, "C07")
 	defer r.Finish()
+	bubble.WatchDeadlocks(3, func(frame, dump string) { r.DeadlockVerdict("c07", frame, dump) })
 
 	fail := func(err error, what interface{}) {
 		if err != nil {
@@ -630,6 +702,9 @@ func TestCheck(t *testing.T) {
 	})
 	r.Group("interleaved", 2*r.Pick(3, 20), func(i int, rng *report.Rand) {
 		fail(interleaved(r, i%2), i%2)
+	})
+	r.Group("burst", r.Pick(48, 800), func(i int, rng *report.Rand) {
+		fail(burst(r, 3+i%10, i), "burst")
 	})
 	r.Group("stress", r.Pick(16, 64), func(i int, rng *report.Rand) {
 		fail(stress(r, rng, r.Pick(250, 2000)), "stress")
